@@ -19,6 +19,7 @@ def decEv (v : V) : Option Ev := do
   | [.atom "H", ls] => pure (.headers (← decStrs ls))
   | [.atom "F"] => pure .finish
   | [.atom "C"] => pure .close
+  | [.atom "X"] => pure .finishRaises
   | _ => none
 
 /-- every step of a trace: `[obs, ctx.remote_ip, ctx.protocol]` after each event -/
